@@ -15,6 +15,7 @@ import ParryModel.C05.Theorems14
 import ParryModel.C05.Theorems15
 import ParryModel.C05.Theorems16
 import ParryModel.C05.Theorems17
+import ParryModel.C05.Theorems18
 /-!
 # C05 property theorems (umbrella file)
 
@@ -38,5 +39,6 @@ import ParryModel.C05.Theorems17
 * `Theorems15.lean` — fu5: the tetrahedron's default methods (`Tet.lean`): no panic with `solid = true`, `contains` on interior points, distance never negative, max-dist, posed projection nearest in the posed tetrahedron.
 * `Theorems16.lean` — fu5: local forms of the vertex pseudo-normal test for the model's own `compute_pseudo_normals` (only incident faces; inside at locally convex corners, outside at reflex corners / blunt normal cones).
 * `Theorems17.lean` — fu5: tetrahedron `distance_to_local_point` / `_with_max_dist` against the set (distance to the tetrahedron; `None` iff the bound is below it).
+* `Theorems18.lean` — fu5: converses `tet_edge_complete` / `tet_face_complete`: the edge and face tests of the tetrahedron cascade fire on the whole Voronoi region of their feature.
 `./mkaudit C05` collects the public `theorem`s of every `Theorems*.lean`.
 -/
